@@ -34,6 +34,7 @@ from typing import (
     Union,
 )
 from numpy import (
+    inf,
     concatenate,
     delete,
     fromiter,
@@ -204,8 +205,9 @@ class Element(ABC):
     def __copy__(self) -> "Element":
         return (
             type(self)()
-            .set_lower_limits(**self.get_lower_limits())
+            .set_lower_limits(**{k: -inf for k in self._parameter_lower_limit})
             .set_upper_limits(**self.get_upper_limits())
+            .set_lower_limits(**self.get_lower_limits())
             .set_values(**self.get_values())
             .set_fixed(**self.are_fixed())
             .set_label(self._label)
@@ -1675,8 +1677,9 @@ class Container(Element):
                     for k, v in self.get_subcircuits().items()
                 },
             )
-            .set_lower_limits(**self.get_lower_limits())
+            .set_lower_limits(**{k: -inf for k in self._parameter_lower_limit})
             .set_upper_limits(**self.get_upper_limits())
+            .set_lower_limits(**self.get_lower_limits())
             .set_fixed(**self.are_fixed())
             .set_label(self._label)
         )
@@ -1694,8 +1697,9 @@ class Container(Element):
                         for k, v in self.get_subcircuits().items()
                     },
                 )
-                .set_lower_limits(**self.get_lower_limits())
+                .set_lower_limits(**{k: -inf for k in self._parameter_lower_limit})
                 .set_upper_limits(**self.get_upper_limits())
+                .set_lower_limits(**self.get_lower_limits())
                 .set_fixed(**self.are_fixed())
                 .set_label(self._label)
             )
